@@ -24,6 +24,25 @@ def strip_versions(o):
     return o
 
 
+def _ascii_case_map(p, o):
+    """'upper' / 'lower' if the call origin is char::to_ascii_uppercase / lowercase, directly or through a
+    workspace helper whose whole body is that call on its own parameter"""
+    full = norm(o[3] or o[2] or "")
+    nm = last(full)
+    if nm == "to_ascii_uppercase":
+        return "upper"
+    if nm == "to_ascii_lowercase":
+        return "lower"
+    g = p.fns.get(o[3] or "")
+    if g is not None and g["argc"] == 1:
+        calls_ = [t for _, t in g.calls()]
+        if len(calls_) == 1 and last(norm(inst_of(calls_[0]))) in ("to_ascii_uppercase", "to_ascii_lowercase") and calls_[0].get("dest") == [0]:
+            gpv = Prov(g)
+            if ("arg", 1) in flatten(gpv.trace_operand(calls_[0]["args"][0])):
+                return "upper" if last(norm(inst_of(calls_[0]))) == "to_ascii_uppercase" else "lower"
+    return None
+
+
 def run(ck, tier):
     ck.rule("R-C18-length", "effects: in make_title_case the output buffer is created as a copy of the span's characters, receives only element stores (no push/insert/remove/truncate/extend/resize/drain) and is the returned value; make_title_case_str converts chars<->String without filtering")
     ck.rule("R-C18-first", "the first word-like token is capitalised whatever it is: the word loop compares the ordinal of the word-like token (the enumerate() counter over iter_word_likes()) with 0, and the true edge of that test reaches the upper-casing store before the next iteration on every path")
@@ -85,7 +104,7 @@ def run(ck, tier):
         ok = False
         detail = "stored value: %s" % sorted(map(str, flatten(val)))[:2]
         for o in flatten(val):
-            if o[0] == "call" and last(norm(o[3] or "")) in ("to_ascii_uppercase", "to_ascii_lowercase"):
+            if o[0] == "call" and _ascii_case_map(p, o):
                 ct = f.blocks[o[1]]["t"]
                 rd = [x for x in flatten(pv.trace_operand(ct["args"][0])) if x[0] == "call" and last(norm(x[3] or "")) == "index"]
                 for x in rd:
@@ -94,7 +113,7 @@ def run(ck, tier):
                     i1 = strip_versions(frozenset(pv.trace_operand(it["args"][1])))
                     i2 = strip_versions(frozenset(pv.trace_operand(imut["args"][1])))
                     ok = same_buf and i1 == i2
-                    detail = "output[i] = output[i].%s() with the same index expression: %s" % (last(norm(o[3])), ok)
+                    detail = "output[i] = output[i].to_ascii_%scase() with the same index expression: %s" % (_ascii_case_map(p, o), ok)
         ck.decide(rule, "make_title_case:store:%s" % ("upper" if "uppercase" in detail else "lower" if "lowercase" in detail else "other"), ok, f.loc(s["ln"]), detail)
     # the proper-noun copy through for_each over output[a..b].iter_mut()
     for c in p.closures_of(f.name):
@@ -142,7 +161,7 @@ def _first(ck, p, byk):
     f = fs[0]
     cfg = Cfg(f)
     pv = Prov(f)
-    ups = [bi for bi, t in f.calls() if inst_of(t).endswith("char::methods::{impl}::to_ascii_uppercase")]
+    ups = [bi for bi, t in f.calls() if _ascii_case_map(p, ("call", bi, def_of(t), inst_of(t))) == "upper"]
     eqs = []
     for bi, b in enumerate(f.blocks):
         if b["cleanup"]:
